@@ -22,7 +22,8 @@
 //	                                    read through GetFromComposite with a slicer that returns the parent, a byte
 //	                                    range of it, or (after reading the parent) an error of its own
 //
-//	D ::= - | bad:<kind> | f<id>.<size> | t<k>
+//	D ::= - | bad:<kind> | f<id>.<size> | t<k> | u:<f..|t..> | U:<f..|t..>
+//	      (u: / U: = that digest with one / every hexadecimal letter of its hash in upper case: malformed)
 //
 // Tree modes: cas (NewCASBufferFromByteSlice), proto (NewProtoBufferFromProto),
 // raw <declaredSize|-1> (unvalidated bytes), stream <chunk> (NewCASBufferFromReader),
@@ -41,10 +42,12 @@ import (
 	"encoding/hex"
 	"fmt"
 	"io"
+	"os"
 	"sort"
 	"strconv"
 	"strings"
 	"testing"
+	"time"
 
 	remoteexecution "github.com/bazelbuild/remote-apis/build/bazel/remote/execution/v2"
 	"github.com/buildbarn/bb-storage/pkg/blobstore"
@@ -67,9 +70,10 @@ const instanceName = "verif/c13"
 // ---------------------------------------------------------------- tokens
 
 type dtok struct {
-	kind byte // '-', 'b', 'f', 't'
-	n    int
-	size int64
+	kind  byte // '-', 'b', 'f', 't', 'u' (one letter upper case), 'U' (all letters upper case)
+	n     int
+	size  int64
+	inner byte // for 'u'/'U': 'f' or 't'
 }
 
 func parseD(s string) (dtok, bool) {
@@ -79,6 +83,12 @@ func parseD(s string) (dtok, bool) {
 	case strings.HasPrefix(s, "bad:"):
 		k, err := strconv.Atoi(s[4:])
 		return dtok{kind: 'b', n: k}, err == nil && k >= 0
+	case strings.HasPrefix(s, "u:"), strings.HasPrefix(s, "U:"):
+		in, ok := parseD(s[2:])
+		if !ok || (in.kind != 'f' && in.kind != 't') {
+			return dtok{}, false
+		}
+		return dtok{kind: s[0], n: in.n, size: in.size, inner: in.kind}, true
 	case strings.HasPrefix(s, "t"):
 		k, err := strconv.Atoi(s[1:])
 		return dtok{kind: 't', n: k}, err == nil && k >= 0
@@ -102,6 +112,8 @@ func (d dtok) String() string {
 		return fmt.Sprintf("bad:%d", d.n)
 	case 't':
 		return fmt.Sprintf("t%d", d.n)
+	case 'u', 'U':
+		return string(d.kind) + ":" + dtok{kind: d.inner, n: d.n, size: d.size}.String()
 	}
 	return fmt.Sprintf("f%d.%d", d.n, d.size)
 }
@@ -261,7 +273,7 @@ func parseSpec(script []string) (*caseSpec, error) {
 				return nil, bad
 			}
 			for _, d := range ds {
-				if d.kind == 't' {
+				if d.kind == 't' || d.inner == 't' {
 					return nil, bad
 				}
 			}
@@ -377,10 +389,52 @@ func hashOf(fn string, b []byte) string {
 
 func keyOf(hash string, size int64) string { return hash + "." + strconv.FormatInt(size, 10) }
 
+// wellFormed is the harness's own notion of a well-formed digest under the case's digest function
+// (deliberately not the repository's validation): the hash has exactly the length of the function's
+// lower case hexadecimal checksum, every character is in [0-9a-f] (upper case is malformed), and
+// the size is not negative. It returns the key (hash.size) of a well-formed digest.
+func wellFormed(fn string, dg *remoteexecution.Digest) (string, bool) {
+	want := 32
+	if fn == "sha256" {
+		want = 64
+	}
+	if len(dg.GetHash()) != want || dg.GetSizeBytes() < 0 {
+		return "", false
+	}
+	for i := 0; i < len(dg.Hash); i++ {
+		c := dg.Hash[i]
+		if !(c >= '0' && c <= '9') && !(c >= 'a' && c <= 'f') {
+			return "", false
+		}
+	}
+	return keyOf(dg.Hash, dg.SizeBytes), true
+}
+
+// casKey identifies an object the way a CAS keyed by checksum bytes does: decoded hash + size.
+func casKey(d digest.Digest) string {
+	return keyOf(hex.EncodeToString(d.GetHashBytes()), d.GetSizeBytes())
+}
+
+func upperHash(h string, all bool) string {
+	if all {
+		return strings.ToUpper(h)
+	}
+	for i := 0; i < len(h); i++ {
+		if h[i] >= 'a' && h[i] <= 'f' {
+			return h[:i] + strings.ToUpper(h[i:i+1]) + h[i+1:]
+		}
+	}
+	return h[:len(h)-1] + "A"
+}
+
 // badDigest returns one of the malformed digest messages.
 func badDigest(fn string, kind int) *remoteexecution.Digest {
 	good := hashOf(fn, []byte("bad"))
-	switch kind % 7 {
+	switch kind % 9 {
+	case 7: // a present object's digest, every letter in upper case
+		return &remoteexecution.Digest{Hash: upperHash(hashOf(fn, []byte("f1")), true), SizeBytes: 5}
+	case 8: // ... one letter in upper case
+		return &remoteexecution.Digest{Hash: upperHash(hashOf(fn, []byte("f2")), false), SizeBytes: 1}
 	case 0:
 		return &remoteexecution.Digest{Hash: "abc", SizeBytes: 3}
 	case 1:
@@ -404,6 +458,10 @@ func (bc *builtCase) resolve(d dtok) *remoteexecution.Digest {
 	switch d.kind {
 	case 'b':
 		return badDigest(bc.spec.fn, d.n)
+	case 'u', 'U':
+		dg := bc.resolve(dtok{kind: d.inner, n: d.n, size: d.size})
+		dg.Hash = upperHash(dg.Hash, d.kind == 'U')
+		return dg
 	case 'f':
 		return &remoteexecution.Digest{Hash: hashOf(bc.spec.fn, []byte(fmt.Sprintf("f%d", d.n))), SizeBytes: d.size}
 	case 't':
@@ -688,6 +746,10 @@ func (bc *builtCase) modelD(d dtok) string {
 		return "-"
 	case 'b':
 		return fmt.Sprintf("bad:%d", d.n)
+	case 'u':
+		return "bad:8"
+	case 'U':
+		return "bad:7"
 	}
 	dg := bc.resolve(d)
 	return fmt.Sprintf("%d.%d", bc.idOf(dg.Hash), dg.SizeBytes)
@@ -820,7 +882,7 @@ func (r *recCAS) GetCapabilities(ctx context.Context, instanceName digest.Instan
 }
 
 func (r *recCAS) showDigest(d digest.Digest) (int, int64, string) {
-	h := d.GetHashString()
+	h := hex.EncodeToString(d.GetHashBytes())
 	id, ok := r.bc.ids[h]
 	if !ok || d.GetDigestFunction() != r.bc.fn {
 		return 1 << 30, d.GetSizeBytes(), "?" + d.String()
@@ -862,7 +924,7 @@ func (r *recCAS) FindMissing(ctx context.Context, digests digest.Set) (digest.Se
 	}
 	sb := digest.NewSetBuilder(0)
 	for _, d := range digests.Items() {
-		k := keyOf(d.GetHashString(), d.GetSizeBytes())
+		k := casKey(d)
 		if r.bc.missing[k] {
 			sb.Add(d)
 		} else {
@@ -881,7 +943,7 @@ func (r *recCAS) Get(ctx context.Context, d digest.Digest) buffer.Buffer {
 		r.faultHit = true
 		return buffer.NewBufferFromError(status.Error(codes.Code(c), "injected CAS fault"))
 	}
-	k := keyOf(d.GetHashString(), d.GetSizeBytes())
+	k := casKey(d)
 	t, ok := r.bc.byKey[k]
 	if !ok || (r.bc.spec.consistent && r.bc.missing[k]) {
 		return buffer.NewBufferFromError(status.Error(codes.NotFound, "Object not found"))
@@ -1107,12 +1169,12 @@ func expectFor(bc *builtCase, ar *remoteexecution.ActionResult, arSize int) expe
 		if dg == nil {
 			return
 		}
-		d, err := bc.fn.NewDigestFromProto(dg)
-		if err != nil {
+		k, ok := wellFormed(bc.spec.fn, dg)
+		if !ok {
 			e.malformed = true
 			return
 		}
-		e.refs[keyOf(d.GetHashString(), d.GetSizeBytes())] = true
+		e.refs[k] = true
 	}
 	var top []*remoteexecution.Digest
 	digestsIn(ar.ProtoReflect(), &top)
@@ -1125,15 +1187,14 @@ func expectFor(bc *builtCase, ar *remoteexecution.ActionResult, arSize int) expe
 			e.noTree = true
 			continue
 		}
-		d, err := bc.fn.NewDigestFromProto(od.TreeDigest)
-		if err != nil {
+		k, ok := wellFormed(bc.spec.fn, od.TreeDigest)
+		if !ok {
 			continue
 		}
-		total += d.GetSizeBytes()
+		total += od.TreeDigest.SizeBytes
 		if total > bc.spec.budget {
 			e.overBudget = true
 		}
-		k := keyOf(d.GetHashString(), d.GetSizeBytes())
 		t, ok := bc.byKey[k]
 		if !ok || (bc.spec.consistent && bc.missing[k]) {
 			e.treeAbsent = true
@@ -1598,7 +1659,11 @@ func genD(r *hx.Rand, pool []dtok, nilPct, badPct int) dtok {
 	case x < nilPct:
 		return dtok{kind: '-'}
 	case x < nilPct+badPct:
-		return dtok{kind: 'b', n: r.Intn(7)}
+		if r.Chance(1, 4) {
+			in := pool[r.Intn(len(pool))]
+			return dtok{kind: "uU"[r.Intn(2)], n: in.n, size: in.size, inner: in.kind}
+		}
+		return dtok{kind: 'b', n: r.Intn(9)}
 	}
 	return pool[r.Intn(len(pool))]
 }
@@ -1827,7 +1892,17 @@ func TestC13(t *testing.T) {
 	// failure does not hide another one.
 	oracleHits, disagreements := 0, 0
 	perWhat := map[string]int{}
-	searching := func() bool { return oracleHits < 300 && run.Findings() < 40 }
+	// the oracle-only search the check script starts after a disagreement is bounded in time
+	var deadline time.Time
+	if os.Getenv("VERIF_SEARCH") == "1" {
+		deadline = time.Now().Add(60 * time.Second)
+	}
+	searching := func() bool {
+		if !deadline.IsZero() && time.Now().After(deadline) {
+			return false
+		}
+		return oracleHits < 300 && run.Findings() < 40
+	}
 	handle := func(name string, script []string) caseResult {
 		res := runCase(run, model, name, script, true)
 		found := res.found
@@ -1919,6 +1994,38 @@ func TestC13(t *testing.T) {
 		}
 		if res.ncalls > 0 {
 			do(append(append([]string{}, base...), fmt.Sprintf("fault %d %d", r.Intn(res.ncalls), faultCodes[r.Intn(len(faultCodes))]), comps[r.Intn(2)]))
+		}
+		// a digest whose hash has upper case letters (it decodes to the checksum of a present object) at
+		// every position: output file, stdout, stderr, tree digest, file and child directory inside a Tree
+		{
+			x := "f1.5"
+			for _, d := range u {
+				if d.kind == 'f' {
+					x = d.String()
+					break
+				}
+			}
+			with := func(lines ...string) []string { return append(append([]string{}, base...), lines...) }
+			do(with("file U:" + x))
+			do(with("file u:" + x))
+			do(with("stdout u:" + x))
+			do(with("stderr U:" + x))
+			do(with("dir t0 U:" + x))
+			if spec, err := parseSpec(base); err == nil && len(spec.trees) > 0 {
+				k := spec.trees[0].k
+				do(with(fmt.Sprintf("dir U:t%d -", k)))
+				do(with(fmt.Sprintf("dir u:t%d f9.7", k)))
+				prefix := fmt.Sprintf("tree %d ", k)
+				for j, l := range base {
+					if strings.HasPrefix(l, prefix) {
+						for _, ins := range []string{"d 1 0 1 u:" + x, "d 2 0 1 U:" + x, "d 2 0 0 u:" + x} {
+							s2 := append(append(append([]string{}, base[:j+1]...), ins), base[j+1:]...)
+							do(append(s2, fmt.Sprintf("dir t%d f9.7", k)))
+						}
+						break
+					}
+				}
+			}
 		}
 		// the Action Cache entry is overwritten while the request is in flight: later reads return the
 		// message with one more output file, which is absent from the CAS / present / malformed
